@@ -80,7 +80,12 @@ func verifAuthenticateImpersonation(m *MulticlusterNodeAuthorizor, ctx context.C
 func VerifC09Binding() {
 	verifAuthOutcome.kind = vp.Choice("authOutcome", 3)
 	nIDs := 1 + vp.Choice("nIdentities", 2)
-	ids := []string{vp.String("id0", 6), vp.String("id1", 6)}[:nIDs]
+	// the first identity is either a well-formed SPIFFE URI with symbolic parts or an arbitrary string
+	id0 := vp.String("id0", 6)
+	if vp.Choice("id0WellFormed", 2) == 1 {
+		id0 = "spiffe://" + vp.StringIn("id0.td", 2, "tu") + "/ns/" + vp.StringIn("id0.ns", 2, "ab") + "/sa/" + vp.StringIn("id0.sa", 2, "st")
+	}
+	ids := []string{id0, vp.String("id1", 6)}[:nIDs]
 	info := security.KubernetesInfo{PodName: vp.String("podName", 3), PodNamespace: vp.String("podNs", 3), PodUID: vp.String("podUID", 3), PodServiceAccount: vp.String("podSA", 3)}
 	verifAuthOutcome.caller = &security.Caller{AuthSource: security.AuthSourceIDToken, Identities: ids, KubernetesInfo: info}
 	verifImpersonation.ran, verifImpersonation.accept = false, vp.Choice("impersonationAccepted", 2) == 1
@@ -92,6 +97,9 @@ func VerifC09Binding() {
 		s.nodeAuthorizer = &MulticlusterNodeAuthorizor{}
 	}
 	imp := vp.String("impersonated", 6)
+	if vp.Choice("impersonatedWellFormed", 2) == 1 {
+		imp = "spiffe://" + vp.StringIn("imp.td", 2, "tu") + "/ns/" + vp.StringIn("imp.ns", 2, "ab") + "/sa/" + vp.StringIn("imp.sa", 2, "st")
+	}
 	signer := vp.String("certSigner", 3)
 	fields := map[string]*structpb.Value{
 		"other": structpb.NewStringValue(vp.String("otherMeta", 4)),
